@@ -227,14 +227,16 @@ class FnUpdateWhole(_Edit):
     hold the callee's updated value, every other address keeps its old value, weight = density(new) - density(old),
     discard holds the callee's discard at the constrained addresses; the old trace is not touched"""
 
-    cases = [k for k in CONSTRAINTS if k != "empty_nested_constraint"] + ["empty_nested_constraint"]
+    cases = [k for k in CONSTRAINTS if k != "empty_nested_constraint"] + ["empty_nested_constraint", "None:only_the_keyword_argument_changes", "y_and_nested:only_the_keyword_argument_changes"]
 
     def call(self, case):
         self.program()
         tr = self.old_trace()
         self.a, self.kw = value("a_new"), value("kw_new")
+        if "only_the_keyword_argument_changes" in case:
+            self.a = self.a0  # the SAME positional object as in the old trace: only kw differs
         self.c = {"x": value("cx"), "y": value("cy"), "z": value("cz")}
-        self.con = CONSTRAINTS[case](self.c)
+        self.con = CONSTRAINTS[case.split(":")[0]](self.c)
         # G4 of the callees, instantiated: re-constraining an address with the value it already holds changes nothing
         Assumed.note("GFI contract G4 assumed of callees, instance: update with the value an address already holds leaves it unchanged (UpdX(x, x) = x)")
         for g, x in zip((self.g1, self.g2, self.g3), self.x0):
